@@ -299,6 +299,56 @@ func (x *bvExec) run(stmts []ast.Stmt) *bvOutcome {
 			default:
 				return &bvOutcome{Kind: "stuck", Why: "undecided condition " + an.Str(st.Cond)}
 			}
+		case *ast.SwitchStmt:
+			// tagless switch, or a tag compared with each case value; the first matching clause runs
+			if st.Init != nil {
+				if out := x.run([]ast.Stmt{st.Init}); out != nil {
+					return out
+				}
+			}
+			var dflt *ast.CaseClause
+			matched := false
+			for _, cs := range st.Body.List {
+				cc := cs.(*ast.CaseClause)
+				if cc.List == nil {
+					dflt = cc
+					continue
+				}
+				res := triFalse
+				for _, ce := range cc.List {
+					var t tri
+					if st.Tag == nil {
+						t = x.cond(ce)
+					} else {
+						t = x.cond(&ast.BinaryExpr{X: st.Tag, Op: token.EQL, Y: ce})
+					}
+					if t == triTrue {
+						res = triTrue
+						break
+					}
+					if t == triUnknown {
+						res = triUnknown
+					}
+				}
+				if res == triUnknown {
+					return &bvOutcome{Kind: "stuck", Why: "undecided switch case"}
+				}
+				if res == triTrue {
+					matched = true
+					if hasFallthrough(cc) {
+						return &bvOutcome{Kind: "stuck", Why: "fallthrough"}
+					}
+					if out := x.run(cc.Body); out != nil {
+						return out
+					}
+					break
+				}
+			}
+			if !matched && dflt != nil {
+				if out := x.run(dflt.Body); out != nil {
+					return out
+				}
+			}
 		case *ast.ForStmt:
 			if st.Init != nil {
 				if out := x.run([]ast.Stmt{st.Init}); out != nil {
